@@ -27,7 +27,7 @@ def beat_seq(draw, q=64, lo=5.0, hi=30.0, max_n=14, min_n=0):
 
 @st.composite
 def derived_beats(draw, ref, q=64, lo=5.0):
-    how = draw(st.sampled_from(["same", "jitter", "jitter", "half", "offbeat", "double", "shift"]))
+    how = draw(st.sampled_from(["same", "jitter", "jitter", "half", "offbeat", "double", "shift", "shift"]))     # "shift": a tracker with a constant bias
     est = list(ref)
     mids = [(a + b) / 2 for a, b in zip(ref[:-1], ref[1:])]
     if how == "jitter":
